@@ -204,6 +204,23 @@ func (e *c12Env) run(c c12Case) (obs, bad string) {
 				}
 				s4, _ := otp.NewRawSuite(name)
 				results = append(results, shapeOfLib(s4.Config()).sig())
+			case "suites-parsed":
+				// strings the parser accepts but the registry does not hold, in several spellings, and rejected ones
+				for i, name := range []string{"OCRA-1:HOTP-SHA1-7:QN08", "ocra-1:hotp-sha1-6:qn08", "OCRA-1:HOTP-SHA256-8:QN08-T45S", "OCRA-1:HOTP-SHA512-9:C-QN10-PSHA1-S064-T1H", "OCRA-2:HOTP-SHA1-6:QN08", "OCRA-1:HOTP-SHA1-6:QA08-T1M"} {
+					if (i+c.Sub)%2 == 0 {
+						name = strings.ToLower(name)
+					}
+					su, err := otp.NewRawSuite(name)
+					if err == nil {
+						cc := su.Config()
+						cc.Digits, cc.Raw = 99, "scribbled"
+						results = append(results, su.String())
+						retain(&kept, op, []string{su.String()})
+					} else {
+						results = append(results, "rejected")
+					}
+					results = append(results, fmt.Sprint(otp.IsKnownSuite(name), otp.SuiteConfigFromRaws(name) == otp.SuiteConfig{}, len(otp.ListSuites())))
+				}
 			case "HexInputToOCRA":
 				hx, err := otp.HexInputToOCRA("0000000000000001", "3132333435363738", "", "abcd", "")
 				if err == nil {
@@ -294,7 +311,7 @@ func c12(r *ev.Run) {
 	if ReplayOnly {
 		return
 	}
-	ops := []string{"GenerateOCRA", "ValidateOCRA", "OCRAInput.Validate", "padBytes", "GenerateHOTP", "ValidateHOTP", "GenerateTOTP", "ValidateTOTP", "GenerateURL+Parse", "suites", "HexInputToOCRA"}
+	ops := []string{"GenerateOCRA", "ValidateOCRA", "OCRAInput.Validate", "padBytes", "GenerateHOTP", "ValidateHOTP", "GenerateTOTP", "ValidateTOTP", "GenerateURL+Parse", "suites", "suites-parsed", "HexInputToOCRA"}
 	sliceOps := map[string]bool{"GenerateOCRA": true, "ValidateOCRA": true, "OCRAInput.Validate": true, "padBytes": true}
 	var n, trans int64
 	states := map[string]bool{irt.Digest(true): true}
